@@ -152,13 +152,34 @@ def crafted_forall_accumulation():
     return out
 
 
+def crafted_guarded_division():
+    """an effect value that divides by a fluent, next to a precondition of the same action that excludes the value zero; the divisor is zero
+    initially and another action makes it positive"""
+    from unified_planning.shortcuts import Problem, Fluent, InstantaneousAction, RealType, BoolType, GT, Div
+    pr = Problem("guarded_division")
+    x, y, done = Fluent("x", RealType()), Fluent("y", RealType()), Fluent("done", BoolType())
+    pr.add_fluent(x, default_initial_value=4)
+    pr.add_fluent(y, default_initial_value=0)
+    pr.add_fluent(done, default_initial_value=False)
+    a = InstantaneousAction("divide")
+    a.add_precondition(GT(y, 0))
+    a.add_effect(x, Div(x, y))
+    a.add_effect(done, True)
+    b = InstantaneousAction("raise_y")
+    b.add_effect(y, 2)
+    pr.add_action(a)
+    pr.add_action(b)
+    pr.add_goal(done)
+    return [(9400000, pr)]
+
+
 def bounded(tier, seed):
     from unified_planning.engines.plan_validator import SequentialPlanValidator, TimeTriggeredPlanValidator
     from unified_planning.engines.results import ValidationResultStatus
     from unified_planning.plans import SequentialPlan, TimeTriggeredPlan, ActionInstance
     nprob, maxlen, cap, nsched = (50, 2, 40, 2) if tier == "quick" else (400, 3, 100, 3)
     failures, evals, nontrivial, samples = [], 0, set(), []
-    for s, pr in itertools.chain(crafted_half_bounded(), crafted_permuted_parameters(), crafted_forall_accumulation(), SC.problems(seed + 29, nprob, features={"max_actions": 2})):
+    for s, pr in itertools.chain(crafted_half_bounded(), crafted_permuted_parameters(), crafted_forall_accumulation(), crafted_guarded_division(), SC.problems(seed + 29, nprob, features={"max_actions": 2})):
         if not SequentialPlanValidator.supports(pr.kind) or not TimeTriggeredPlanValidator.supports(pr.kind):
             continue
         gas = seqsem.ground_actions(pr)
@@ -184,7 +205,14 @@ def bounded(tier, seed):
                     warnings.simplefilter("ignore")
                     try:
                         rs = sv.validate(pr, SequentialPlan([ActionInstance(a, tuple(ps)) for a, ps in seqplan]))
-                        rt = tv.validate(pr, TimeTriggeredPlan([(times[i], ActionInstance(plan[i][0], tuple(plan[i][1])), None) for i in range(len(plan))]))
+                        try:
+                            rt = tv.validate(pr, TimeTriggeredPlan([(times[i], ActionInstance(plan[i][0], tuple(plan[i][1])), None) for i in range(len(plan))]))
+                        except ZeroDivisionError as e2:
+                            # the sequential validator reached a verdict on this plan; the time-triggered one could not even evaluate it
+                            failures.append({"what": f"seed {s}: sequential says {rs.status.name}, time-triggered raised ZeroDivisionError "
+                                                     f"[{'effect-value-undefined-where-a-condition-of-the-same-action-is-false' if rs.status != ValidationResultStatus.VALID else signature(pr, plan)}]",
+                                             "concrete": desc, "observed": repr(e2)})
+                            break
                     except Exception as e:  # noqa
                         failures.append({"what": f"seed {s}: a validator raised {type(e).__name__}: {e} [{signature(pr, plan)}]",
                                          "concrete": desc, "observed": repr(e)})
